@@ -214,6 +214,28 @@ func (p c18) battery(env *Env) (*Case, []*Out) {
 			}
 		}
 	}
+	// every decoration next to every defect kind, unwrapped, at the first position class of each family
+	famSeen = map[string]bool{}
+	for _, s := range sites {
+		fam := s.class
+		if i := strings.IndexAny(fam, ":+"); i >= 0 {
+			fam = fam[:i]
+		}
+		if famSeen[fam] {
+			continue
+		}
+		famSeen[fam] = true
+		for _, d := range defectDecorations {
+			for _, k := range defectKinds {
+				if strings.HasPrefix(s.class, "refbranch") && !strings.HasPrefix(k, "ref-") {
+					continue
+				}
+				defectDeco = d.name
+				buildDefect(w, args, t0, s, k, "none", 1, add, "")
+				defectDeco = ""
+			}
+		}
+	}
 	// a second input whose root type name is already taken when its turn comes (same base name in another
 	// directory; a definition of the first input named like the second's root type): every defect kind in the
 	// second input's definitions and properties must still fail the run
@@ -239,6 +261,39 @@ func (p c18) battery(env *Env) (*Case, []*Out) {
 			for _, k := range defectKinds {
 				buildDefect(w3, a3, i1, st, k, "none", 0, add, "root-name-taken")
 			}
+		}
+	}
+	// several outputs, one of them in a package whose name is not a Go identifier (go/format cannot parse that file;
+	// today: a warning, unformatted code, exit 0). Whatever the tool makes of it, it must not find out half-way through
+	// writing: exit 0 with everything, or a failure that has touched nothing (seeded change s83 made it an error that
+	// is raised per output, between the writes).
+	for variant := 0; variant < 4; variant++ {
+		u0 := &SFile{Tag: "u0", Dir: "a", Base: "u0f.json", ID: "https://example.com/u0", RootObj: true}
+		u0.Doc = Obj{{"$id", u0.ID}, {"type", "object"}, {"properties", Obj{{"mk_u0", str}}}}
+		u1 := &SFile{Tag: "u1", Dir: "a", Base: "u1f.json", ID: "https://example.com/u1", RootObj: true}
+		u1.Doc = Obj{{"$id", u1.ID}, {"type", "object"}, {"properties", Obj{{"mk_u1", str}}}}
+		u2 := &SFile{Tag: "u2", Dir: "a", Base: "u2f.json", ID: "https://example.com/u2", RootObj: true}
+		u2.Doc = Obj{{"$id", u2.ID}, {"type", "object"}, {"properties", Obj{{"mk_u2", str}}}}
+		w4 := &World{Root: "/w", Cwd: "/w", Files: []*SFile{u0, u1, u2}, Opts: Options{Package: "example.com/m/main", Output: "out/m.go"}}
+		bad, good := "out/z/gen.go", "out/b/gen.go"
+		switch variant {
+		case 1:
+			bad, good = "out/b/gen.go", "out/z/gen.go"
+		case 2:
+			w4.Opts.Output = "" // the default output is standard output
+		case 3:
+			w4.Opts.Package = "example.com/m/my main" // the default package is the one that cannot be formatted
+			bad = "out/a/gen.go"
+		}
+		badPkg := "example.com/m/my-pk1"
+		if variant == 3 {
+			badPkg = "example.com/m/pk1"
+		}
+		w4.Opts.SchemaPkg = []Pair{{u1.ID, badPkg}, {u2.ID, "example.com/m/pk2"}}
+		w4.Opts.SchemaOut = []Pair{{u1.ID, bad}, {u2.ID, good}}
+		w4.Extra = append(w4.Extra, simrt.Node{Path: "/w/" + good, Kind: "f", Data: []byte("// OLD CONTENT, LONGER THAN WHAT WILL BE WRITTEN ........................................................................................................................................................................................\n")})
+		for _, a4 := range [][]string{{"a/u0f.json", "a/u1f.json", "a/u2f.json"}, {"a/u2f.json", "a/u1f.json", "a/u0f.json"}} {
+			add(fmt.Sprintf("several outputs, one unformattable, variant %d", variant), w4.Spec("", nil, a4), c18Run{Kind: "valid", Ref: -1, Feature: "several-outputs-one-unformattable"})
 		}
 	}
 	// every chain shape at depth 16 (a linear generator needs a few thousand ticks for it)
@@ -972,6 +1027,31 @@ func defectValue(kind string) any {
 	panic(kind)
 }
 
+// defectDecorations: keywords put NEXT TO the ungeneratable element, in the same schema object. They annotate or
+// constrain instances and say nothing about how the element is generated; an element that cannot be generated
+// still cannot be (seeded change s84: a property whose schema carries "not" was taken for the boolean schema false
+// and skipped, errors and all).
+var defectDecorations = []struct {
+	name string
+	kv   KV
+}{
+	{"not-empty", KV{"not", Obj{}}},
+	{"not-null", KV{"not", Obj{{"type", "null"}}}},
+	{"readonly", KV{"readOnly", true}},
+	{"writeonly", KV{"writeOnly", true}},
+	{"deprecated", KV{"deprecated", true}},
+	{"comment", KV{"$comment", "kept for old clients"}},
+	{"description", KV{"description", "An element with a description."}},
+	{"title", KV{"title", "Decorated"}},
+	{"examples", KV{"examples", []any{1, "x"}}},
+	{"default-null", KV{"default", nil}},
+	{"ifthen", KV{"if", Obj{{"type", "string"}}}},
+	{"const-vendor", KV{"x-internal", true}},
+}
+
+// defectDeco is the decoration buildDefect adds to the next defect ("" = none); set and reset by its callers.
+var defectDeco = ""
+
 func genDefect(t *rapid.T, w *World, args []string, add addFn, feature string) {
 	afs := argFiles(w, args)
 	if len(afs) == 0 {
@@ -990,6 +1070,10 @@ func genDefect(t *rapid.T, w *World, args []string, add addFn, feature string) {
 		wrap = rapid.SampledFrom(defectWraps).Draw(t, "dwrap")
 	}
 	branchAt := rapid.IntRange(0, 8).Draw(t, "branchat")
+	if di := rapid.IntRange(0, 3*len(defectDecorations)-1).Draw(t, "ddeco"); di < len(defectDecorations) {
+		defectDeco = defectDecorations[di].name
+		defer func() { defectDeco = "" }()
+	}
 	buildDefect(w, args, f, s, kind, wrap, branchAt, add, feature)
 }
 
@@ -997,6 +1081,14 @@ func genDefect(t *rapid.T, w *World, args []string, add addFn, feature string) {
 // at site s of file f and adds the run.
 func buildDefect(w *World, args []string, f *SFile, s site, kind, wrap string, branchAt int, add addFn, feature string) {
 	val := defectValue(kind)
+	if defectDeco != "" {
+		for _, d := range defectDecorations {
+			if d.name == defectDeco {
+				val = append(append(Obj{}, val.(Obj)...), d.kv)
+				s.class += "~" + d.name
+			}
+		}
+	}
 	if !strings.HasPrefix(s.class, "refbranch") {
 		if !strings.HasPrefix(s.class, "prop") && !strings.HasPrefix(s.class, "branchprop") && (strings.HasPrefix(wrap, "anyOf") || strings.HasPrefix(wrap, "allOf")) {
 			// a type-less combinator at a declared-type position (definition, array items) is
